@@ -86,25 +86,27 @@ Proof.
 Qed.
 
 (* ---------- DimensionGroup.__new__: the `while to_expand` loop as generated ---------- *)
-Definition step_te (e : elem) (r : list string) (x : string) (nm' : pyset) : pyset :=
-  set_difference_update (set_update (set_update (set_discard r x) (ereq e)) (eimp e)) nm'.
-
 Lemma gen_loop_nil u fuel nm : gen_new_loop1 u fuel ([], nm) = GOk ([], nm).
 Proof. destruct fuel; reflexivity. Qed.
 
 Lemma gen_loop_zero u x r nm : gen_new_loop1 u 0 (x :: r, nm) = GOutOfFuel.
 Proof. reflexivity. Qed.
 
+(* one iteration on a known name: the new work list is characterised by MEMBERSHIP only, so the proofs below do not depend
+   on the order in which the source performs its set updates *)
+Definition te_spec (te' : pyset) (e : elem) (r : list string) (x : string) (nm' : pyset) : Prop :=
+  forall y, In y te' <-> ((In y r /\ y <> x) \/ In y (ereq e) \/ In y (eimp e)) /\ ~ In y nm'.
+
 Lemma gen_loop_some u f x r nm e : find_elem u x = Some e ->
-  gen_new_loop1 u (S f) (x :: r, nm) = gen_new_loop1 u f (step_te e r x (set_add nm (ename e)), set_add nm (ename e)).
-Proof. intro H. simpl. unfold getitem. rewrite H. reflexivity. Qed.
+  exists te', gen_new_loop1 u (S f) (x :: r, nm) = gen_new_loop1 u f (te', set_add nm (ename e))
+              /\ te_spec te' e r x (set_add nm (ename e)).
+Proof.
+  intro H. simpl. unfold getitem. rewrite H. eexists. split; [reflexivity|].
+  intro y. rewrite In_set_diff, !In_set_update, In_set_discard. tauto.
+Qed.
 
 Lemma gen_loop_none u f x r nm : find_elem u x = None -> gen_new_loop1 u (S f) (x :: r, nm) = GKeyError.
 Proof. intro H. simpl. unfold getitem. rewrite H. reflexivity. Qed.
-
-Lemma In_step_te y e r x nm' :
-  In y (step_te e r x nm') <-> ((In y r /\ y <> x) \/ In y (ereq e) \/ In y (eimp e)) /\ ~ In y nm'.
-Proof. unfold step_te. rewrite In_set_diff, !In_set_update, In_set_discard. tauto. Qed.
 
 Lemma gen_loop_sound u : forall fuel te nm rte r,
   gen_new_loop1 u fuel (te, nm) = GOk (rte, r) ->
@@ -118,20 +120,21 @@ Proof.
        [intros y []|intros Hc d e Hd He y Hy; destruct (Hc d e y Hd He Hy) as [?|[]]; assumption].
   - rewrite gen_loop_zero in H. discriminate.
   - destruct (find_elem u x) as [e|] eqn:Hf; [|rewrite (gen_loop_none _ _ _ _ _ Hf) in H; discriminate].
-    rewrite (gen_loop_some _ _ _ _ _ _ Hf) in H.
-    pose proof (find_elem_some _ _ _ Hf) as [_ Hn]. rewrite Hn in H.
+    destruct (gen_loop_some u f x rest nm e Hf) as [te' [Hstep Hte]].
+    pose proof (eq_trans (eq_sym Hstep) H) as H'. clear H Hstep. rename H' into H.
+    pose proof (find_elem_some _ _ _ Hf) as [_ Hn]. rewrite Hn in H, Hte.
     apply IH in H. destruct H as (Ha & Ht & Hc & Hm & Hk).
     assert (Hxr : In x r) by (apply Ha; apply In_set_add; left; reflexivity).
     assert (Hall : forall y, (In y rest \/ In y (ereq e) \/ In y (eimp e)) -> In y r).
     { intros y Hy. destruct (in_dec string_dec y (set_add nm x)) as [Hi|Hi]; [apply Ha; exact Hi|].
       destruct (string_dec y x) as [E|E]; [subst; exact Hxr|].
-      apply Ht. apply In_step_te. split; [|exact Hi]. tauto. }
+      apply Ht. apply Hte. split; [|exact Hi]. tauto. }
     split; [intros y Hy; apply Ha; apply In_set_add; right; exact Hy|].
     split; [intros y [Hy|Hy]; [subst; exact Hxr|apply Hall; left; exact Hy]|].
     split; [|split].
     + intros Hinv. apply Hc. intros d0 e0 y Hd0 He0 Hy.
       destruct (in_dec string_dec y (set_add nm x)) as [Hi|Hi]; [left; exact Hi|]. right.
-      apply In_step_te. split; [|exact Hi].
+      apply Hte. split; [|exact Hi].
       apply In_set_add in Hd0 as [Hd0|Hd0].
       * subst d0. rewrite Hf in He0. inversion He0; subst. unfold deps in Hy. apply in_app_or in Hy. tauto.
       * destruct (Hinv d0 e0 y Hd0 He0 Hy) as [H1|[H1|H1]].
@@ -140,7 +143,7 @@ Proof.
         -- left. split; [exact H1|]. intro E. apply Hi. apply In_set_add. left. exact E.
     + intros T HT HaT HtT. apply Hm; [exact HT| |].
       * intros y Hy. apply In_set_add in Hy as [Hy|Hy]; [subst; apply HtT; left; reflexivity|apply HaT; exact Hy].
-      * intros y Hy. apply In_step_te in Hy as [[[Hy _]|Hy] _]; [apply HtT; right; exact Hy|].
+      * intros y Hy. apply Hte in Hy as [[[Hy _]|Hy] _]; [apply HtT; right; exact Hy|].
         eapply HT; [|exact Hf|]; [apply HtT; left; reflexivity|]. unfold deps. apply in_or_app. exact Hy.
     + intros HaK. apply Hk. intros y Hy. apply In_set_add in Hy as [Hy|Hy]; [subst; eapply find_elem_is_known; exact Hf|apply HaK; exact Hy].
 Qed.
@@ -156,14 +159,18 @@ Proof.
   - exfalso. apply (Hdis x); [left; reflexivity|].
     apply (@NoDup_length_incl _ nm (names_of u) Hnd); [simpl in Hlen; lia|exact Ha|apply Ht; left; reflexivity].
   - destruct (find_elem_known u x) as [e He]; [apply Ht; left; reflexivity|].
-    rewrite (gen_loop_some _ _ _ _ _ _ He). pose proof (find_elem_some _ _ _ He) as [Hin Hn]. rewrite Hn.
+    destruct (gen_loop_some u f x rest nm e He) as [te' [Hstep Hte]].
+    pose proof (find_elem_some _ _ _ He) as [Hin Hn]. rewrite Hn in Hte, Hstep.
     assert (Hx : ~ In x nm) by (apply Hdis; left; reflexivity).
-    rewrite (set_add_new nm x Hx). apply IH.
+    rewrite (set_add_new nm x Hx) in Hte, Hstep.
+    cut (exists rte r, gen_new_loop1 u f (te', x :: nm) = GOk (rte, r)).
+    { intros [rte [r Hr]]. exists rte, r. exact (eq_trans Hstep Hr). }
+    apply IH.
     + constructor; assumption.
     + intros y [Hy|Hy]; [subst; apply Ht; left; reflexivity|apply Ha; exact Hy].
-    + intros y Hy. apply In_step_te in Hy as [[[Hy _]|Hy] _]; [apply Ht; right; exact Hy|].
+    + intros y Hy. apply Hte in Hy as [[[Hy _]|Hy] _]; [apply Ht; right; exact Hy|].
       eapply wf_deps_known; [exact Hwf|exact Hin|]. unfold deps. apply in_or_app. exact Hy.
-    + intros y Hy. apply In_step_te in Hy as [_ Hy]. exact Hy.
+    + intros y Hy. apply Hte in Hy as [_ Hy]. exact Hy.
     + simpl. lia.
 Qed.
 
@@ -177,14 +184,16 @@ Proof.
   - exfalso. pose proof (NoDup_incl_length Hnd Ha). simpl in Hlen. lia.
   - destruct te as [|x rest]; [contradiction|].
     destruct (find_elem u x) as [e|] eqn:Hf; [|apply gen_loop_none; exact Hf].
-    rewrite (gen_loop_some _ _ _ _ _ _ Hf). pose proof (find_elem_some _ _ _ Hf) as [Hin Hn]. rewrite Hn.
+    destruct (gen_loop_some u f x rest nm e Hf) as [te' [Hstep Hte]].
+    pose proof (find_elem_some _ _ _ Hf) as [Hin Hn]. rewrite Hn in Hte, Hstep.
     assert (Hx : ~ In x nm) by (apply Hdis; left; reflexivity).
     assert (Hkx : In x (names_of u)) by (eapply find_elem_is_known; exact Hf).
-    rewrite (set_add_new nm x Hx). apply IH.
+    rewrite (set_add_new nm x Hx) in Hte, Hstep.
+    refine (eq_trans Hstep _). apply IH.
     + constructor; assumption.
     + intros z [Hz|Hz]; [subst; exact Hkx|apply Ha; exact Hz].
-    + intros z Hz. apply In_step_te in Hz as [_ Hz]. exact Hz.
-    + exists y. split; [|exact Hun]. apply In_step_te. split.
+    + intros z Hz. apply Hte in Hz as [_ Hz]. exact Hz.
+    + exists y. split; [|exact Hun]. apply Hte. split.
       * left. destruct Hy as [Hy|Hy]; [subst; contradiction|]. split; [exact Hy|]. intro E. subst. contradiction.
       * intros [Hz|Hz]; [subst; contradiction|]. apply Hun. apply Ha. exact Hz.
     + simpl. lia.
